@@ -85,6 +85,8 @@ type Engine struct {
 	poolPrivate              map[*Value]Value
 	syncMaps                 map[*Value]*MapV
 	solverAlt                string
+	fs                       map[string]*fsNode
+	fsTmpN                   int
 	par                      *parState
 	mutexes                  map[*Value]*mutexSt
 	auxN                     int
